@@ -766,6 +766,14 @@ class AsyncProcess(BaseProcess):
         self.coroutine = self.constructor(self.context)
         self.first_await = True
 
+    def stop(self):
+        coroutine, self.coroutine = self.coroutine, None
+        self.runnable = False
+        self.critical = False
+        self.waits_on = None
+        if coroutine is not None:
+            coroutine.close()
+
     def run(self):
         try:
             self.waits_on = self.coroutine.send(None)
